@@ -18,6 +18,8 @@ run_one() {
   rc=$(echo "$res" | grep -o 'MUTANT-RESULT.*exit=[0-9]*' | grep -o '[0-9]*$')
   cls=$(echo "$res" | grep -m1 '^violation' | sed 's/violation class=//;s/ first_run.*//')
   if [ "$rc" = "1" ]; then got=1; else got=0; fi
+  # correct changes on which the machinery is known to be wrong (DESIGN.md 10): reported, not counted
+  if grep -q '"expected": "limit"' "$d/meta.json"; then echo "LIMIT     $id exit=$rc ($cls)"; return; fi
   # property-preserving refactorings must leave the check silent: only exit 0 counts
   if grep -q '"expected": "silent"' "$d/meta.json" && [ "$rc" != "0" ]; then echo "CHANGED   $id expected silent (exit 0), got exit=$rc ($cls)"; return; fi
   hf=$(echo "$res" | grep -m1 'HARNESS' | cut -c1-400)
